@@ -269,7 +269,13 @@ func c20Relayout(text string, noise []int) string {
 				ln = ln[:i] + seps[next()%len(seps)] + ln[i+3:]
 			}
 		}
-		out.WriteString(blanks[next()%len(blanks)] + ln + blanks[next()%len(blanks)] + eol)
+		tail := blanks[next()%len(blanks)]
+		if ln != "" && !strings.HasPrefix(ln, "[") && next()%3 == 0 {
+			// an inline comment behind the value (the parser strips '#' outside quotes)
+			inline := []string{"# note", "#", " # a = b [x]", "\t# say \"hi\"", " # ends with a \"quote\"", " ## double", " # \"", "# 'single' \"q\" # more"}
+			tail = " " + inline[next()%len(inline)] + tail
+		}
+		out.WriteString(blanks[next()%len(blanks)] + ln + tail + eol)
 	}
 	return out.String()
 }
@@ -367,7 +373,7 @@ func c20Check(env *core.Env, ci any) (res core.Result) {
 func init() {
 	core.Register(&core.Prop{
 		ID:    "C20",
-		Rule:  "rapid-generated TOMLData over the 7 writer sections (keys [A-Za-z0-9_-]{1,12}; strings valid UTF-8 without quote/backslash/CR/LF and not 'true'/'false', bools, full-range ints, finite float64 incl. integral/subnormal/±0/huge) written by WriteTOMLFile (with generated inline comments), parsed back and compared incl. dynamic type and float bits; then re-laid-out with comment lines, blank lines, CRLF, blanks around lines and '='; 10% of cases are arbitrary/structured byte files checked for no panic. non-trivial = >=2 sections and (a string containing '#', blank, '=' or '[' or a float); distinct = hash of the case",
+		Rule:  "rapid-generated TOMLData over the 7 writer sections (keys [A-Za-z0-9_-]{1,12}; strings valid UTF-8 without quote/backslash/CR/LF and not 'true'/'false', bools, full-range ints, finite float64 incl. integral/subnormal/±0/huge) written by WriteTOMLFile (with generated inline comments), parsed back and compared incl. dynamic type and float bits; then re-laid-out with comment lines, inline comments behind values (also containing or ending in quotes), blank lines, CRLF, blanks around lines and '='; 10% of cases are arbitrary/structured byte files checked for no panic. non-trivial = >=2 sections and (a string containing '#', blank, '=' or '[' or a float); distinct = hash of the case",
 		Gen:   c20Gen,
 		New:   func() any { return &c20Case{} },
 		Check: c20Check,
